@@ -163,7 +163,7 @@ SPEC = {
         "cast_to_literal_dropped_changes_meaning",
         # vector layer (Thm/C01Vec.lean): shape-changing casts, swizzles, numeric constructors, component-wise operators
         "exporter_vec_shape_as_modelled", "swizzle_letters_are_identity", "vector_type_names_roundtrip",
-        "vector_intrinsic_table_is_identity",
+        "vector_intrinsic_table_is_identity", "wide_constants_keep_kind_and_payload",
         "gen_sem_vec_expr", "gen_sem_vec_expr_plain", "scalar_cast_then_widen_differs",
         "dropping_inner_shape_cast_changes_meaning", "literal_vector_cast_panics"]] + [
         # the text leg (printing the exported tree and reading it back) is property C09's; its table obligations are
@@ -188,7 +188,9 @@ SPEC = {
             "(3) C01.vex — expression functions of the Lean vector layer (casts, swizzles, constructors, component-wise operators, "
             "&& ||, ?:, scalar sub-expressions): the model's tree must equal the exporter's tree of the returned expression and "
             "Lean's VIr.eval must equal the Rust IR evaluator on 6 argument vectors; plus, in every tier, the exhaustive "
-            "operator-nesting stream (1294 one-function programs on a 14-vector grid) and the corpus; non-trivial = function in the "
+            "operator-nesting stream (1294 one-function programs on a 14-vector grid), the vector-syntax nesting stream (22 outer x 17 "
+            "inner forms: swizzle / subscript / cast / constructor / call / prefix / postfix / assignment / comma / ?: in each other, "
+            "374 programs on 3 vectors) and the corpus; non-trivial = function in the "
             "modelled subset, exported, and at least one vector ran to completion",
     "level_text": "Scalar subset (bool/int/uint/float, literal int/float; constants, locals, static globals, every IntrinsicOp the "
                   "exporter accepts, ?:, comma, casts, calls with in/out/inout, 46 pure built-ins; all statement forms incl. switch): the "
